@@ -137,6 +137,46 @@ Section Walker.
         destruct (IH Hin s) as (H1 & H2 & H3). now rewrite H1, H2, H3.
     Qed.
 
+    (* ---- wrappers whose own report and whose summary for their children do not depend on what is in the hole
+            (weaker than inert: the wrapper may report something of its own and may change the summary) *)
+    Fixpoint indep (c : ctx) (s : S) : Prop :=
+      match c with
+      | Hole => True
+      | Wrap i pre post _ _ c' =>
+        (forall mid, emit s (Node i (pre ++ mid ++ post)) = emit s (Node i (pre ++ [] ++ post))
+                     /\ step s (Node i (pre ++ mid ++ post)) = step s (Node i (pre ++ [] ++ post)))
+        /\ indep c' (step s (Node i (pre ++ [] ++ post)))
+      | Seq _ _ c' _ => indep c' s
+      end.
+
+    Lemma indep_parts c frag : forall s, indep c s ->
+      hole_sum step c frag s = hole_sum step c [] s
+      /\ gen_pre step emit c frag s = gen_pre step emit c [] s
+      /\ gen_post step emit c frag s = gen_post step emit c [] s.
+    Proof.
+      induction c as [|i pre post dl dc c' IH|pre dl c' IH post]; intros s Hin.
+      - repeat split.
+      - destruct Hin as [Hi Hc']. cbn [hole_sum gen_pre gen_post]. unfold wnode.
+        destruct (Hi (shiftF dl dc (plug c' frag))) as [He Hs].
+        destruct (Hi (shiftF dl dc (plug c' []))) as [He0 Hs0].
+        rewrite He, Hs, He0, Hs0.
+        destruct (IH _ Hc') as (H1 & H2 & H3). now rewrite H1, H2, H3.
+      - cbn [indep] in Hin. cbn [hole_sum gen_pre gen_post].
+        destruct (IH s Hin) as (H1 & H2 & H3). now rewrite H1, H2, H3.
+    Qed.
+
+    (* the fragment is analysed under the summary the (empty) context produces at its hole; everything else is what
+       the detector reports on the context filled with nothing *)
+    Theorem plug_indep c frag s : indep c s ->
+      detectF s (plug c frag) =
+      gen_pre step emit c [] s
+      ++ shiftRs (off_l c) (off_c c) (detectF (hole_sum step c [] s) frag)
+      ++ gen_post step emit c [] s.
+    Proof.
+      intro Hin. rewrite plug_decompose. destruct (indep_parts c frag s Hin) as (H1 & H2 & H3).
+      now rewrite H1, H2, H3.
+    Qed.
+
     (* ---- locality *)
     Theorem plug_local c frag s : inert c ->
       detectF s (plug c frag) =
